@@ -109,8 +109,15 @@ impl TimeZone {
             Some(rule) => match rule {
                 TransitionRule::Fixed(local_time_type) => local_time_type.clone(),
                 TransitionRule::Alternate(altt) => {
-                    let std_end_timestamp = altt.local_std_end_timestamp(timestamp);
-                    let dst_end_timestamp = altt.local_dst_end_timestamp(timestamp);
+                    // At the very edges of the valid date range, the rule dates might not be
+                    // representable. Standard time is assumed in this case.
+                    let (std_end_timestamp, dst_end_timestamp) = match (
+                        altt.local_std_end_timestamp(timestamp),
+                        altt.local_dst_end_timestamp(timestamp),
+                    ) {
+                        (Some(std_end), Some(dst_end)) => (std_end, dst_end),
+                        _ => return altt.std.clone(),
+                    };
 
                     let std_end_unix = std_end_timestamp - altt.std.utoff as i64;
                     let dst_end_unix = dst_end_timestamp - altt.dst.utoff as i64;
